@@ -300,6 +300,9 @@ func checkC11(c c11Case) *core.Failure {
 	want := c11Oracle(c)
 	pos := map[string]int{}
 	for i, ch := range plan {
+		if ch.Change != db.ChangeCreate && ch.Change != db.ChangeReplace {
+			continue // mentioned, but left alone
+		}
 		if _, dup := pos[ch.Alias]; dup {
 			return core.Failf("C11/planned-twice", "%s appears twice in the change list: %s", ch.Alias, desc())
 		}
@@ -318,12 +321,10 @@ func checkC11(c c11Case) *core.Failure {
 			}
 		}
 		if got {
-			wantKind := db.ChangeCreate
-			if hasCert(c.Ents[i].Art) {
-				wantKind = db.ChangeReplace
-			}
-			if plan[pos[n]].Change != wantKind {
-				return core.Failf("C11/change-type", "%s planned with change type %d, expected %d: %s", n, plan[pos[n]].Change, wantKind, desc())
+			// an existing certificate may only be replaced with consent (C10), so it must be announced as a replacement;
+			// announcing more than that as a replacement (a file holding only a key, say) is the cautious side and nobody's loss
+			if hasCert(c.Ents[i].Art) && plan[pos[n]].Change != db.ChangeReplace {
+				return core.Failf("C11/change-type", "%s holds a certificate but is planned with change type %d instead of a replacement: %s", n, plan[pos[n]].Change, desc())
 			}
 			if iss := c.Ents[i].Issuer; iss >= 0 {
 				if ip, ok := pos[names[iss]]; ok && ip > pos[n] {
@@ -602,12 +603,8 @@ func checkC11Real(r *core.Runner, c c11Case) *core.Failure {
 			}
 		}
 		if planned {
-			wk := "create"
-			if hasCert(c.Ents[i].Art) {
-				wk = "replace"
-			}
-			if kind != wk {
-				return core.Failf("C11/files/change-type", "%s planned as %s, expected %s: %+v", name, kind, wk, c)
+			if hasCert(c.Ents[i].Art) && kind != "replace" {
+				return core.Failf("C11/files/change-type", "%s holds a certificate but is planned as %s: %+v", name, kind, c)
 			}
 		}
 	}
